@@ -270,12 +270,23 @@ def realise_simple(rec, herr_active):
     tu = f["tu"]
     if tu:
         ents = [(byte(i + 1), tgt[t]) for i, t in enumerate(tu) if t != "none"]
-        extra[101] = fp.Stream({}, fp.tounicode_cmap([("bfchar", ents)] if ents else []))
+        tf = f.get("tuform", "bfchar")
+        if tf == "range":
+            secs = [("bfrange", [(b, b, t)]) for b, t in ents]
+        elif tf == "arrshort":      # declared range of three codes, array of one: only the pair that exists applies
+            secs = [("bfrange_arr", [(b, min(b + 2, 255), [t])]) for b, t in ents]
+        elif tf == "arrlong":       # one code, array of two: the extra element is ignored
+            secs = [("bfrange_arr", [(b, b, [t, "#"])]) for b, t in ents]
+        else:
+            secs = [("bfchar", ents)] if ents else []
+        extra[101] = fp.Stream({}, fp.tounicode_cmap(secs))
         d["ToUnicode"] = Ref(101)
     desc = None
     if f["kind"] != "Std14":
         d["FirstChar"] = byte(f["fc"])
-        d["LastChar"] = byte(f["fc"]) + len(f["widths"]) - 1
+        lc = f.get("lc", "consistent")
+        if lc != "absent":
+            d["LastChar"] = byte(f["fc"]) + len(f["widths"]) - 1 + {"consistent": 0, "small": -1, "large": 3}[lc]
         wf = f.get("wform", "direct")
         ws = [num(w) for w in f["widths"]]
         if wf in ("someref", "allref"):
@@ -566,7 +577,8 @@ def direction_a_fonts(ck, dev, jobs, futures, ppool):
 def font_summary(f):
     return "%s%s enc=%s/%s diff=%s tu=%s ent=%s fc=%s widths=%s(%s) mw=%s fm=%s" % (
         f["kind"], "+FontFile(StandardEncoding)" if f.get("std") else ("+FontFile" if f["file"] else ""), f["enc"], f["base"], [x["v"] if x["t"] == "int" else x["g"] for x in f["diff"]], f["tu"],
-        [(e["c"], e["g"]) for e in f["ent"]], f["fc"], f["widths"], f.get("wform", "direct"), f["mw"], f["fm"])
+        [(e["c"], e["g"]) for e in f["ent"]], f["fc"], f["widths"],
+        f.get("wform", "direct") + "/LastChar " + f.get("lc", "consistent") + "/ToUnicode as " + f.get("tuform", "bfchar"), f["mw"], f["fm"])
 
 
 # =============================================================================================== extended coverage: CFF
